@@ -229,6 +229,11 @@ def run(ctx):
     ctx.rule("C12.a", "every mutable component of the histogram returned by a public non-in-place operation is FRESH", 25)
     ctx.rule("C12.d", "non-in-place operations never write to / mutate their operands; in-place operators never "
              "store a reference to their operand", 25)
+    from rules import wiring as _w
+    _w.same_name_forwarding(ctx, "C12.d", m, _w.funcs_of(m, "histogram_base", "histogram1d", "histogram_nd", "histogram_collection"),
+                            "histogram-classes:options-forwarded")
+    _w.params_used(ctx, "C12.d", _w.funcs_of(m, "histogram_base", "histogram1d", "histogram_nd", "histogram_collection"),
+                   "histogram-classes:options-read")
     for rescls, defcls, name, assume, exempt in OPS:
         check_op(ctx, m, "C12.a", "C12.d", rescls, defcls, name, assume, exempt)
     for defcls, name in INPLACE:
